@@ -924,6 +924,7 @@ impl Sim {
                     self.nodes[node].conns.get_mut(&ch).unwrap().conn.handle_event(ce);
                 }
             }
+            let mut extra_polls = 0;
             loop {
                 if spurious > 0 && self.drv_rng.below(1000) < spurious {
                     // spurious calls: a timeout that is not due, polls that have nothing to report
@@ -937,7 +938,15 @@ impl Sim {
                 let before = self.nodes[node].conns[&ch].conn.verif_snapshot();
                 buf.clear();
                 let t = self.nodes[node].conns.get_mut(&ch).unwrap().conn.poll_transmit(now, maxd, &mut buf);
-                let Some(t) = t else { break };
+                let Some(t) = t else {
+                    // C20 spurious calls: repeat a poll_transmit that had nothing to send (whatever it returns is
+                    // handled like any transmit, so a difference shows in the trace)
+                    if spurious > 0 && extra_polls < 2 && self.drv_rng.below(1000) < spurious {
+                        extra_polls += 1;
+                        continue;
+                    }
+                    break;
+                };
                 progressed = true;
                 self.on_transmit(node, ch, &before, &t, &buf);
                 if self.model_trace && t.destination == before.path.remote && self.model_ops.len() < 400_000 {
@@ -1005,9 +1014,17 @@ impl Sim {
             }
         }
         // application events
+        let mut extra_app_polls = 0;
         loop {
             let e = self.nodes[node].conns.get_mut(&ch).unwrap().conn.poll();
-            let Some(e) = e else { break };
+            let Some(e) = e else {
+                // C20 spurious calls: repeat a poll() that had nothing to report
+                if spurious > 0 && extra_app_polls < 2 && self.drv_rng.below(1000) < spurious {
+                    extra_app_polls += 1;
+                    continue;
+                }
+                break;
+            };
             let name = ev_name(&e);
             self.trace.push(Rec::Ev { node, ch, at: nowoff, ev: name.clone() });
             let nc = self.nodes[node].conns.get_mut(&ch).unwrap();
